@@ -19,6 +19,8 @@ type Omni struct {
 	AllPos    bool
 	OnlyBase  int // replay: >=0 restricts to one base
 	OnScenario func(s *Scenario, loc map[string]interface{}, collect []CollectRes)
+	// BeforeCollect runs before the scenario's reference collection (the first calls made with its schemas)
+	BeforeCollect func(s *Scenario, loc map[string]interface{})
 }
 
 func subSeed(seed int64, i int) int64 { return seed*1000003 + int64(i)*7919 + 17 }
@@ -77,6 +79,9 @@ func omnibus(run *Run, o Omni, visit Visit) {
 		for si, s := range scs {
 			run.Count("scenario_" + s.Kind)
 			loc := map[string]interface{}{"seed": run.Res.Seed, "base": bi, "scenario": si, "kind": s.Kind, "src": string(s.Src)}
+			if o.BeforeCollect != nil {
+				o.BeforeCollect(s, loc)
+			}
 			coll := s.W.Collect()
 			if o.OnScenario != nil {
 				o.OnScenario(s, loc, coll)
